@@ -327,6 +327,7 @@ func runRecord(l SL) Result {
 	for i := 1; i < len(keystr); i++ {
 		if keystr[i] == keystr[i-1] {
 			fails = append(fails, "decoded record has a duplicate key")
+			break
 		}
 	}
 	if nerr == nil {
@@ -1293,9 +1294,9 @@ func run(c Sx) Result {
 
 func gen(r *Rng, tier string, emit func(Sx)) {
 	r = NewRng(r.U64())
-	nrec, nhdr, nsess, nops := 1500, 700, 60, 40
+	nrec, nhdr, nsess, nops := 3000, 1500, 250, 40
 	if tier == "thorough" {
-		nrec, nhdr, nsess, nops = 40000, 15000, 1500, 60
+		nrec, nhdr, nsess, nops = 40000, 15000, 3000, 60
 	}
 	genRecords(r, nrec, emit)
 	genHeaders(r, nhdr, emit)
